@@ -290,12 +290,15 @@ package main
 //@ func evalLiteralExpr
 //@   modifies nothing
 //@   ensures result1 == litExpr(expr)
-//@ func moduleHasComputedQueryDefault
+//@ spec func litFields(td *ast.TypeDef) bool = forall(k, 0, len(td.Fields), td.Fields[k].Default != nil ==> litExpr(td.Fields[k].Default))
+//@ func moduleHasComputedDefault
 //@   requires module != nil
 //@   modifies nothing
 //@   ensures !result ==> forall(j, 0, len(module.Items), typeis(module.Items[j], *ast.Route) && module.Items[j].(*ast.Route) != nil ==> litDefaults(module.Items[j].(*ast.Route)))
-//@   loop 1 invariant 0 <= rangeidx && forall(j, 0, rangeidx, typeis(module.Items[j], *ast.Route) && module.Items[j].(*ast.Route) != nil ==> litDefaults(module.Items[j].(*ast.Route)))
-//@   loop 2 invariant 0 <= rangeidx && forall(k, 0, rangeidx, route.QueryParams[k].Default != nil ==> litExpr(route.QueryParams[k].Default))
+//@   ensures !result ==> forall(j, 0, len(module.Items), typeis(module.Items[j], *ast.TypeDef) && module.Items[j].(*ast.TypeDef) != nil ==> litFields(module.Items[j].(*ast.TypeDef)))
+//@   loop 1 invariant 0 <= rangeidx && forall(j, 0, rangeidx, typeis(module.Items[j], *ast.Route) && module.Items[j].(*ast.Route) != nil ==> litDefaults(module.Items[j].(*ast.Route))) && forall(j, 0, rangeidx, typeis(module.Items[j], *ast.TypeDef) && module.Items[j].(*ast.TypeDef) != nil ==> litFields(module.Items[j].(*ast.TypeDef)))
+//@   loop 2 invariant 0 <= rangeidx && forall(k, 0, rangeidx, it.QueryParams[k].Default != nil ==> litExpr(it.QueryParams[k].Default))
+//@   loop 3 invariant 0 <= rangeidx && forall(k, 0, rangeidx, it.Fields[k].Default != nil ==> litExpr(it.Fields[k].Default))
 // (start-up diagnostics: read the module, write nothing)
 //@ func moduleInjectsLLM
 //@   modifies nothing
@@ -303,7 +306,7 @@ package main
 //@   modifies nothing
 //@ func warnInertDeclarations
 //@   modifies nothing
-//@ spec func allLit(m *ast.Module) bool = forall(j, 0, len(m.Items), typeis(m.Items[j], *ast.Route) && m.Items[j].(*ast.Route) != nil ==> litDefaults(m.Items[j].(*ast.Route)))
+//@ spec func allLit(m *ast.Module) bool = forall(j, 0, len(m.Items), typeis(m.Items[j], *ast.Route) && m.Items[j].(*ast.Route) != nil ==> litDefaults(m.Items[j].(*ast.Route))) && forall(j, 0, len(m.Items), typeis(m.Items[j], *ast.TypeDef) && m.Items[j].(*ast.TypeDef) != nil ==> litFields(m.Items[j].(*ast.TypeDef)))
 //@ func setupRoutes
 //@   callpre glyph.registerCompiledRoute arg1 != nil ==> litDefaults(arg1)
 //@   loop 2 invariant useCompiler ==> allLit(module)
@@ -330,3 +333,18 @@ package main
 //@ func interfaceToValue
 //@   modifies nothing
 //@   ensures result != nil
+
+// ---- defaults of the declared input type on compiled routes (C07, C02): the object validated and bound as `input` is a
+// ---- new object that keeps every field of the request body and has every field whose declared default is a literal
+// ---- (setupRoutes keeps modules with any other default on the interpreter: allLit above covers type fields too)
+//@ func applyCompiledInputDefaults
+//@   requires route != nil
+//@   modifies nothing
+//@   ensures declC(route) ==> result != nil && fresh(result)
+//@   ensures !declC(route) ==> result == body
+//@   ensures declC(route) ==> forall(k, string, old(has(body, k)) ==> has(result, k) && result[k] == old(body[k]))
+//@   ensures declC(route) ==> forall(j, 0, len(declCTD(route).Fields), declCTD(route).Fields[j].Default != nil && litExpr(declCTD(route).Fields[j].Default) ==> has(result, declCTD(route).Fields[j].Name))
+//@   loop 1 invariant result != nil && fresh(result) && forall(k, string, visited(1, k) ==> has(result, k) && result[k] == body[k]) && forall(k, string, has(result, k) ==> has(body, k) && result[k] == body[k]) && forall(k, string, has(body, k) == old(has(body, k)) && body[k] == old(body[k]))
+//@   loop 2 invariant result != nil && fresh(result) && 0 <= rangeidx && forall(k, string, old(has(body, k)) ==> has(result, k) && result[k] == old(body[k])) && forall(j, 0, rangeidx, typeDef.Fields[j].Default != nil && litExpr(typeDef.Fields[j].Default) ==> has(result, typeDef.Fields[j].Name))
+//@ func createCompiledRouteHandler$1
+//@   assertat "if err := validateCompiledInput(route, bodyMap); err != nil {" bodyMap != nil && declC(route) ==> forall(j, 0, len(declCTD(route).Fields), declCTD(route).Fields[j].Default != nil && litExpr(declCTD(route).Fields[j].Default) ==> has(bodyMap, declCTD(route).Fields[j].Name))
